@@ -1463,6 +1463,14 @@ func (e *Engine) callFn(s *State, f *Frame, fn *ssa.Function, args []Val, bind [
 				}
 			case ArrV:
 				parts = append(parts, v.A)
+			case PtrV: // a pointer to an array: the function depends on the array's contents
+				if v.Kind == "arr" {
+					parts = append(parts, e.load(s, v, types.NewArray(v.Elem, v.N)).(ArrV).A)
+				} else if v.Nil {
+					parts = append(parts, refT(0))
+				} else {
+					parts = append(parts, v.Ref) // any other pointer: the function of the object's identity
+				}
 			default:
 				panic(fmt.Sprintf("opaque arg %T", a))
 			}
@@ -1501,7 +1509,10 @@ func (e *Engine) callFn(s *State, f *Frame, fn *ssa.Function, args []Val, bind [
 	if len(fn.Blocks) == 0 {
 		// default external rule: results unconstrained, the referents of pointer and slice arguments havocked
 		// (unless the callee is known not to write them), effect recorded in the ghost trace
-		if !readOnlyExternal(fn.String()) {
+		if c := e.ifaceContract(fn.String()); c != nil {
+			// an assumed contract says what the dependency may write: exactly its modifies= parameters (done in unknownCall,
+			// after the arguments were frozen for old_x)
+		} else if !readOnlyExternal(fn.String()) {
 			for _, a := range args {
 				switch v := a.(type) {
 				case SliceV:
